@@ -7,7 +7,7 @@ from dataclasses import dataclass
 
 from xdsl.context import Context
 from xdsl.dialects.arith import AddiOp, ConstantOp
-from xdsl.dialects.builtin import IntAttr, IntegerAttr, ModuleOp
+from xdsl.dialects.builtin import IntAttr, IntegerAttr, IntegerType, ModuleOp
 from xdsl.ir import ErasedSSAValue, Operation, OpResult
 from xdsl.irdl import SSAValues
 from xdsl.passes import ModulePass
@@ -40,11 +40,11 @@ class TestConstantFoldingIntegerAdditionPattern(RewritePattern):
         ):
             return
 
-        # Calculate the result of the addition
+        # Calculate the result of the addition, wrapping around on overflow
         lhs: int = lhs_attr.value.data
         rhs: int = rhs_attr.value.data
         folded_op = ConstantOp(
-            IntegerAttr(lhs + rhs, op.result.type)  # pyright: ignore[reportCallIssue, reportArgumentType]
+            IntegerAttr(lhs + rhs, op.result.type, truncate_bits=True)  # pyright: ignore[reportCallIssue, reportArgumentType]
         )
 
         # Rewrite with the calculated result
@@ -124,9 +124,14 @@ class TestSpecialisedConstantFoldingPass(ModulePass):
                     rhs: int = rhs_op.value.value.data
 
                     result_type = rewrite_op.results[0].type
-                    ## Inline `IntegerAttr(lhs + rhs, result_type)`
+                    ## Inline `IntegerAttr(lhs + rhs, result_type, truncate_bits=True)`
+                    result_value = lhs + rhs
+                    if isinstance(result_type, IntegerType):
+                        result_value = result_type.normalized_value(
+                            result_value, truncate_bits=True
+                        )
                     int_attr = IntAttr.__new__(IntAttr)
-                    object.__setattr__(int_attr, "data", lhs + rhs)
+                    object.__setattr__(int_attr, "data", result_value)
                     integer_attr = IntegerAttr.__new__(IntegerAttr)
                     ## Inline `ParametrizedAttribute.__init__(integer_attr,[int_attr, result_type])`
                     object.__setattr__(integer_attr, "value", int_attr)
